@@ -382,7 +382,7 @@ def run(tier):
     if tier == "quick":
         shapes = '{"s","aos","aas","ea","xdateS","xoidS","xbinB","xdateA","xdateO","xoidA","xoidO","xbinA","xbinO","xbinS","xbinSA"}'
     t2 = l3.generate("RedactorTW", "RedactorTW.cfg", cs, {"TWShapeKinds": shapes}, rp.sink, timeout=3000)
-    t3 = l3.generate("RedactorEW", "RedactorEW.cfg", cs, {}, rp.sink, timeout=1500)
+    t3 = l3.generate("RedactorEW", "RedactorEW.cfg", cs, {"EWDamaged": "TRUE"}, rp.sink, timeout=1500)
     for tt in (t2, t3):
         if not tt.ok:
             raise common.Infra("TLC failed: %s\n%s" % (tt.violation, tt.out[-800:]))
